@@ -66,19 +66,56 @@ def _scaled(arr, kind):
     return [int(x) for x in a.ravel()]
 
 
-def build_input(case):
+def build_bins(case):
+    """bin table in the representation asked for by case["rep"]: chrom categorical (default) / plain strings, extra
+    columns, a non-default index"""
+    rep = case.get("rep", {})
+    bins = G.table_from_blocks(G.blocks_from_widths(case["widths"]), categorical=rep.get("chrom", "categorical") == "categorical")
+    if rep.get("bins_extra"):
+        bins["weight"] = np.arange(len(bins), dtype=np.float64) / 4 + 0.5
+        bins["tag"] = np.arange(len(bins), dtype=np.int64) * 3 - 2
+    if rep.get("bins_index"):
+        bins.index = np.arange(len(bins))[::-1] * 10 + 7
+    return bins
+
+
+def _represent(d, form, rep):
+    """one table/chunk given as dict of arrays -> the requested representation"""
+    if rep.get("colorder") == "reversed":
+        d = {k: d[k] for k in reversed(list(d))}
+    if rep.get("junk"):
+        d = dict(d)
+        d["junk"] = np.array(["x%d" % i for i in range(len(d["bin1_id"]))], dtype=object)
+    if form == "df":
+        df = pd.DataFrame(d)
+        if rep.get("px_index"):
+            df.index = np.arange(len(df))[::-1] * 3 + 11
+        return df
+    if rep.get("dictvals") == "series":
+        return {k: pd.Series(v) for k, v in d.items()}
+    if rep.get("dictvals") == "list":
+        return {k: (v.tolist() if k != "junk" else list(v)) for k, v in d.items()}
+    return d
+
+
+def build_input(case, workdir=None):
     """returns (bins, pixels-argument, kwargs) for create_cooler"""
     import cooler
     from cooler.create import ArrayLoader
-    bins = G.bins_for(case["widths"])
+    rep = case.get("rep", {})
+    bins = build_bins(case)
     cols = case["cols"]
     kw = {"symmetric_upper": case["symm"]}
     names = [c[0] for c in cols]
-    if names != ["count"]:
+    if names != ["count"] or rep.get("columns_arg") == "explicit":
         kw["columns"] = names
+    if rep.get("columns_arg") == "with_ids":
+        kw["columns"] = ["bin2_id"] + names + ["bin1_id"]
     dt = {c[0]: G.np_dtype(c[2]) for c in cols if not (c[0] == "count" and c[2] == "int32") and c[2] != "default"}
+    if rep.get("id_out_dtypes"):
+        dt.update({"bin1_id": np.int32, "bin2_id": np.int16})
     if dt:
-        kw["dtypes"] = dt
+        kw["dtypes"] = pd.Series(dt) if rep.get("dtypes_as") == "series" else dt
     if case.get("h5opts", "default") != "default":
         kw["h5opts"] = dict(H5OPTS[case["h5opts"]])
     if case.get("metadata") is not None:
@@ -88,19 +125,61 @@ def build_input(case):
     for o in ("ensure_sorted", "dupcheck", "boundscheck", "triucheck"):
         if o in case.get("opts", {}):
             kw[o] = case["opts"][o]
+    if rep.get("lock"):
+        import threading
+        kw["lock"] = threading.Lock()
+    if rep.get("mode"):
+        kw["mode"] = rep["mode"]
     form = case["form"]
+    idt = case.get("id_dtype", "int64")
     if form in ("frame", "dict"):
-        d = G.make_chunk(case["rows"], cols, "dict", case.get("id_dtype", "int64"))
-        px = pd.DataFrame(d) if form == "frame" else d
-    elif form == "chunks":
+        d = G.make_chunk(case["rows"], cols, "dict", idt)
+        px = _represent(d, "df" if form == "frame" else "dict", rep)
+    elif form in ("chunks", "unordered"):
         parts = G.split_rows(case["rows"], case["cuts"])
         forms = case.get("chunkforms") or ["dict"] * len(parts)
-        px = iter([G.make_chunk(p, cols, f, case.get("id_dtype", "int64")) for p, f in zip(parts, forms)])
-        kw["ordered"] = True
+        chunks = [_represent(G.make_chunk(p, cols, "dict", idt), f, rep) for p, f in zip(parts, forms)]
+        if form == "unordered":
+            u = rep["unordered"]
+            chunks = [chunks[i] for i in u["order"]]
+            kw["ordered"] = False
+            for k in ("mergebuf", "max_merge", "delete_temp"):
+                if k in u:
+                    kw[k] = u[k]
+            if u.get("temp_dir"):
+                td = os.path.join(workdir or ".", "tmpd")
+                os.makedirs(td, exist_ok=True)
+                kw["temp_dir"] = td
+        else:
+            kw["ordered"] = True
+        ik = rep.get("iterkind", "iterator")
+        if ik == "generator":
+            px = (c for c in chunks)
+        elif ik == "list":
+            px = chunks
+        elif ik == "tuple":
+            px = tuple(chunks)
+        else:
+            px = iter(chunks)
     elif form == "array":
         A = np.array(case["array"], dtype=np.int64)
         if cols[0][1] == "float":
             A = A.astype(np.float64) / G.SCALE
+        ak = rep.get("array_kind")
+        if ak == "fortran":
+            A = np.asfortranarray(A)
+        elif ak == "int32":
+            A = A.astype(np.int32)
+        elif ak == "memmap":
+            fn = os.path.join(workdir or ".", "arr.npy")
+            np.save(fn, A)
+            A = np.load(fn, mmap_mode="r")
+        elif ak == "h5py":
+            import h5py
+            fn = os.path.join(workdir or ".", "arr.h5")
+            with h5py.File(fn, "w") as f:
+                f.create_dataset("A", data=A)
+            A = h5py.File(fn, "r")["A"]
         px = ArrayLoader(bins, A, case["chunksize"])
         kw["ordered"] = True
     else:
@@ -112,17 +191,31 @@ def impl_case(case, path):
     """create + read back; returns a dict of canonical observables"""
     import cooler
     import h5py
-    if os.path.exists(path):
-        os.remove(path)
-    bins, px, kw = build_input(case)
-    st, val = G.guarded(lambda: cooler.create_cooler(path, bins, px, **kw))
+    rep = case.get("rep", {})
+    workdir = os.path.dirname(path)
+    for fn in [path] + [os.path.join(workdir, x) for x in os.listdir(workdir) if x.endswith(".multi.cool")]:
+        if os.path.exists(fn):
+            os.remove(fn)
+    bins, px, kw = build_input(case, workdir)
+    grp = rep.get("uri")                                  # destination group, spelled as given ("g/h", "/g/h", ...)
+    uri = path if not grp else path + "::" + grp
+    gpath = "/" if not grp else "/" + grp.strip("/")
+    if rep.get("api") == "create":                        # cooler.create.create directly (mode None -> append flag rule)
+        from cooler.create import create as _create
+        kw.pop("ordered", None)
+        if rep.get("dtype_kw") and "dtypes" in kw:
+            kw["dtype"] = kw.pop("dtypes")
+        st, val = G.guarded(lambda: _create(uri, bins, px, **kw))
+    else:
+        st, val = G.guarded(lambda: cooler.create_cooler(uri, bins, px, **kw))
     if st != "ok":
         return {"result": G.err_kind_of_message(st, val)}
     cols = case["cols"]
     out = {"result": "ok"}
 
     def read():
-        with h5py.File(path, "r") as f:
+        with h5py.File(path, "r") as f0:
+            f = f0[gpath]
             g = f["pixels"]
             b1 = [int(x) for x in g["bin1_id"][:]]
             b2 = [int(x) for x in g["bin2_id"][:]]
@@ -136,24 +229,37 @@ def impl_case(case, path):
             out["sum"] = None if out["sum"] is None else out["sum"][0]
             out["storage-mode"] = str(at["storage-mode"])
             out["nbins"] = int(at["nbins"])
-        clr = cooler.Cooler(path)
+        clr = cooler.Cooler(path if not grp else path + "::" + gpath)
         df = clr.pixels()[:]
         out["pixel_columns"] = [str(c) for c in df.columns]
         vs = [_scaled(df[c[0]].values, c[1]) for c in cols]
         out["pixels"] = [[int(a), int(b_), [v[i] for v in vs]] for i, (a, b_) in enumerate(zip(df["bin1_id"].values, df["bin2_id"].values))]
         dense, sparse = [], []
+        mkw = {"chunksize": rep["matrix_chunksize"]} if rep.get("matrix_chunksize") else {}
         for c in cols:
-            sp = clr.matrix(balance=False, field=c[0], sparse=True)[:, :]
+            sp = clr.matrix(balance=False, field=c[0], sparse=True, **mkw)[:, :]
             if case.get("sparse_only"):
                 out.setdefault("dense_shape", list(sp.shape))
             else:
-                m = clr.matrix(balance=False, field=c[0])[:, :]
+                m = clr.matrix(balance=False, field=c[0], **mkw)[:, :]
                 dense.append(_scaled(m, c[1]))
                 out.setdefault("dense_shape", list(m.shape))
             dv = _scaled(sp.data, c[1])
             sparse.append(sorted([int(r), int(cc), v] for r, cc, v in zip(sp.row, sp.col, dv)))
         out["dense"] = dense
         out["sparse"] = sparse
+        if not case.get("sparse_only"):
+            ap = clr.matrix(balance=False, field=cols[0][0], as_pixels=True, **mkw)[:, :]
+            av = _scaled(ap[cols[0][0]].values, cols[0][1])
+            out["as_pixels"] = [[int(a), int(b_), x] for a, b_, x in zip(ap["bin1_id"].values, ap["bin2_id"].values, av)]
+        if rep.get("join") or rep.get("bins_extra") or rep.get("bins_index") or rep.get("chrom"):
+            bt = clr.bins()[:]
+            out["bins"] = [[str(c_), int(s_), int(e_)] for c_, s_, e_ in zip(bt["chrom"].astype(str), bt["start"], bt["end"])]
+            if rep.get("bins_extra"):
+                out["bins_extra"] = [[float(w) * 4, int(t_)] for w, t_ in zip(bt["weight"], bt["tag"])]
+            jp = clr.pixels(join=True)[:]
+            out["joined"] = [[str(a), int(b_), int(c_), str(d_), int(e_), int(f_)] for a, b_, c_, d_, e_, f_ in
+                             zip(jp["chrom1"].astype(str), jp["start1"], jp["end1"], jp["chrom2"].astype(str), jp["start2"], jp["end2"])]
         inf = clr.info
         out["info_metadata"] = inf.get("metadata")
         out["info_assembly"] = inf.get("genome-assembly")
@@ -178,7 +284,10 @@ def model_expr(case):
     flags = " ".join(C.b(x) for x in (case["symm"], o.get("boundscheck", True), o.get("triucheck", True),
                                       o.get("dupcheck", True), o.get("ensure_sorted", False)))
     form = case["form"]
-    if form in ("frame", "dict"):
+    if form in ("frame", "dict") and case.get("rep", {}).get("api") == "create":
+        body = f"create {d} {fits} {cnt} {C.z(n)} {flags} [{G.rows_lit(case['rows'])}]"
+    elif form in ("frame", "dict", "unordered"):
+        # unordered creation of a duplicate-free stream stores the sorted table (the merge itself is C06's subject)
         body = f"create_cooler_frame {d} {fits} {cnt} {C.z(n)} {flags} {G.rows_lit(case['rows'])}"
     elif form == "chunks":
         body = f"create {d} {fits} {cnt} {C.z(n)} {flags} {G.chunks_lit(G.split_rows(case['rows'], case['cuts']))}"
@@ -255,6 +364,18 @@ def oracle(case, out):
             bad.append((f"dense matrix of column {case['cols'][k][0]}", flat, out["dense"][k]))
         if out["sparse"][k] != sorted(trip):
             bad.append((f"sparse matrix of column {case['cols'][k][0]}", sorted(trip)[:12], out["sparse"][k][:12]))
+    if "as_pixels" in out and out["as_pixels"] != [[r[0], r[1], r[2][0]] for r in exp]:
+        bad.append(("matrix(as_pixels=True)", [[r[0], r[1], r[2][0]] for r in exp][:12], out["as_pixels"][:12]))
+    if "bins" in out:
+        names = G.names_for(len(case["widths"]))
+        eb = [[names[c_], s_, e_] for blk in G.blocks_from_widths(case["widths"]) for (c_, s_, e_) in blk]
+        if out["bins"] != eb:
+            bad.append(("bins()[:]", eb[:8], out["bins"][:8]))
+        if "bins_extra" in out and out["bins_extra"] != [[float(i + 2), 3 * i - 2] for i in range(len(eb))]:
+            bad.append(("extra bin columns", "weight=i/4+0.5, tag=3i-2", out["bins_extra"][:8]))
+        ej = [eb[r[0]] + eb[r[1]] for r in exp]
+        if out["joined"] != ej:
+            bad.append(("pixels(join=True)[:]", ej[:6], out["joined"][:6]))
     md = case.get("metadata")
     if out["info_metadata"] != ({} if md is None else md) or (md is not None and stdjson.dumps(out["info_metadata"], sort_keys=True) != stdjson.dumps(md, sort_keys=True)):
         bad.append(("metadata", md, out["info_metadata"]))
@@ -464,6 +585,88 @@ def gen_cases(ctx):
                             case["rows"] = rows
                     cases.append(case)
 
+    # C4. one case per public parameter / input representation that the groups above do not vary (audit table in RULE_AUDIT)
+    F32 = [["count", "float", "float64", "float32"]]
+    C3 = [["count", "int", "int32", "int64"], ["foo", "float", "default", "float64"], ["bar", "int", "int64", "int64"]]
+    variants = [
+        ("frame", {"chrom": "string"}, {}), ("dict", {"bins_extra": True}, {}), ("chunks", {"chrom": "string", "bins_extra": True, "bins_index": True}, {}),
+        ("frame", {"px_index": True}, {}), ("chunks", {"px_index": True}, {"chunkforms": "df"}),
+        ("frame", {"colorder": "reversed"}, {}), ("dict", {"colorder": "reversed"}, {}), ("chunks", {"colorder": "reversed"}, {"cols": C3}),
+        ("frame", {"junk": True}, {}), ("dict", {"junk": True}, {}), ("chunks", {"junk": True}, {"chunkforms": "df"}),
+        ("dict", {"dictvals": "series"}, {}), ("dict", {"dictvals": "list"}, {}),
+        ("chunks", {"iterkind": "generator"}, {}), ("chunks", {"iterkind": "list"}, {}), ("chunks", {"iterkind": "tuple"}, {"chunkforms": "df"}),
+        ("frame", {"columns_arg": "explicit"}, {}), ("frame", {"columns_arg": "with_ids"}, {}), ("chunks", {"columns_arg": "with_ids"}, {"cols": C3}),
+        ("frame", {"id_out_dtypes": True}, {}), ("chunks", {"id_out_dtypes": True, "dtypes_as": "series"}, {"cols": [["count", "int", "int64", "int64"]]}),
+        ("chunks", {"lock": True}, {}), ("frame", {"lock": True}, {}),
+        ("frame", {"uri": "g/h"}, {}), ("chunks", {"uri": "/g/h"}, {}), ("dict", {"uri": "/g"}, {}), ("chunks", {"uri": "g", "mode": "a"}, {}),
+        ("frame", {"api": "create"}, {}), ("chunks", {"api": "create", "dtype_kw": True}, {"cols": [["count", "float", "float64", "float64"]]}),
+        ("dict", {"api": "create", "uri": "x/y"}, {}),
+        ("unordered", {"unordered": {"order": "identity"}}, {}), ("unordered", {"unordered": {"order": "reversed", "mergebuf": 2}}, {}),
+        ("unordered", {"unordered": {"order": "shuffled", "max_merge": 1}}, {"nchunks": 4}), ("unordered", {"unordered": {"order": "reversed", "temp_dir": True}}, {}),
+        ("unordered", {"unordered": {"order": "shuffled", "delete_temp": False, "mergebuf": 3}}, {"cols": C3}),
+        ("chunks", {}, {"opts": {"boundscheck": False}}), ("frame", {}, {"opts": {"boundscheck": False, "triucheck": False, "dupcheck": False}}),
+        ("chunks", {}, {"opts": {"triucheck": False, "dupcheck": False}}),
+        ("chunks", {"shuffle_within": True}, {"opts": {"ensure_sorted": True}}), ("frame", {}, {"opts": {"ensure_sorted": True}}),
+        ("array", {"array_kind": "h5py"}, {}), ("array", {"array_kind": "memmap"}, {}), ("array", {"array_kind": "fortran"}, {}), ("array", {"array_kind": "int32"}, {}),
+        ("frame", {}, {"cols": [["foo", "int", "int32", "int64"]]}), ("chunks", {}, {"cols": [["foo", "float", "default", "float64"], ["bar", "int", "int16", "int64"]]}),
+        ("frame", {}, {"cols": [["count", "int", "int32", "int8"]]}), ("chunks", {}, {"cols": [["count", "int", "int32", "uint16"]]}),
+        ("dict", {}, {"cols": F32}), ("frame", {}, {"cols": [["count", "int", "int32", "bool"]], "bool": True}),
+        ("frame", {"matrix_chunksize": 1}, {}), ("chunks", {"matrix_chunksize": 3, "join": True}, {}),
+    ]
+    n = 5
+    for vi, (form, rep, extra) in enumerate(variants):
+        for symm in ((True, False) if thorough else (bool(vi % 2),)):
+            if form == "array":
+                symm = symm  # ArrayLoader yields the upper triangle in both modes
+            cols = extra.get("cols", DEFAULT_COLS)
+            keys = [(0, 0), (0, 3), (1, 1), (1, 4), (2, 3), (3, 3), (4, 4)] + ([] if (symm or form == "array") else [(3, 0), (4, 1), (2, 0)])
+            rows = []
+            for (i, j) in sorted(keys):
+                vals = []
+                for c in cols:
+                    x = 1 + (i * 7 + j * 3 + len(vals)) % 97
+                    vals.append(x % 2 if extra.get("bool") else x)
+                rows.append([i, j, vals])
+            case = {"grp": "parameter", "widths": [[4, 4, 1], [4, 2]], "symm": symm, "cols": cols, "rows": rows, "form": form, "rep": dict(rep)}
+            if "opts" in extra:
+                case["opts"] = dict(extra["opts"])
+            if form in ("chunks", "unordered"):
+                k = extra.get("nchunks", 3)
+                marks = sorted(rng.randint(0, len(rows)) for _ in range(k - 1))
+                edges = [0] + marks + [len(rows)]
+                case["cuts"] = [b_ - a for a, b_ in zip(edges[:-1], edges[1:])]
+                cf = extra.get("chunkforms")
+                case["chunkforms"] = [cf or ["dict", "df"][(vi + q) % 2] for q in range(k)]
+                if rep.get("shuffle_within"):
+                    parts = G.split_rows(rows, case["cuts"])
+                    for part in parts:
+                        rng.shuffle(part)
+                    case["rows"] = [r for part in parts for r in part]
+                if form == "unordered":
+                    u = dict(rep["unordered"])
+                    order = list(range(k))
+                    if u["order"] == "reversed":
+                        order.reverse()
+                    elif u["order"] == "shuffled":
+                        rng.shuffle(order)
+                    u["order"] = order
+                    case["rep"]["unordered"] = u
+            elif form in ("frame", "dict"):
+                if rep.get("api") != "create":           # create() itself takes the table as is; sorting is create_cooler's job
+                    rows = list(rows)
+                    rng.shuffle(rows)
+                    case["rows"] = rows
+            else:
+                A = [[0] * n for _ in range(n)]
+                for i, j, vv in rows:
+                    A[i][j] = vv[0]
+                    if i != j:
+                        A[j][i] = vv[0] + (0 if (i + j) % 2 else 50)
+                case["array"] = A
+                case["chunksize"] = 1 + vi % 3
+                case.pop("rows")
+            cases.append(case)
+
     # D. ArrayLoader, every chunksize 1..n+1
     for n in (range(1, 8) if thorough else (1, 2, 3, 4, 6)):
         for rep in range(3 if thorough else 1):
@@ -540,7 +743,7 @@ def nontrivial(case):
     rows = case.get("rows") or []
     return (len(rows) >= 2 or len(case.get("cuts", [])) >= 2 or any(r[0] != r[1] for r in rows) or case["form"] == "array"
             or case["cols"] != DEFAULT_COLS or case.get("h5opts", "default") != "default" or bool(case.get("opts"))
-            or case.get("id_dtype", "int64") != "int64")
+            or case.get("id_dtype", "int64") != "int64" or bool(case.get("rep")))
 
 
 # --------------------------------------------------------------------------- run
